@@ -474,6 +474,7 @@ int64_t cmb_process_wait_process(struct cmb_process *awaited)
 /* Friendly functions in cmi_event.c, not part of the public interface */
 extern void cmi_event_add_waiter(uint64_t key, struct cmb_process *pp);
 extern bool cmi_event_remove_waiter(uint64_t key, const struct cmb_process *pp);
+extern cmb_event_func *const wakeup_event_event_fn;
 
 /*
  * cmb_process_wait_event - Wait for an event to occur.
@@ -498,7 +499,21 @@ int64_t cmb_process_wait_event(const uint64_t ev_handle)
     /* Yield to the dispatcher and collect the return signal value */
     const int64_t ret = (int64_t)cmi_coroutine_yield(NULL);
 
-    /* Possibly much later */
+    /*
+     * Possibly much later. The wakeup from the event removes our awaitable
+     * entry; if it is still there, something else (e.g. a timer) woke us up,
+     * and our registrations must not be left behind.
+     */
+    if (cmi_process_remove_awaitable(me, CMI_PROCESS_AWAITABLE_EVENT,
+                                     (void *)ev_handle)) {
+        if (!cmb_event_is_scheduled(ev_handle)
+            || !cmi_event_remove_waiter(ev_handle, me)) {
+            /* It has happened meanwhile and our wakeup is pending: withdraw it */
+            (void)cmb_event_pattern_cancel(wakeup_event_event_fn, me,
+                                           CMB_ANY_OBJECT);
+        }
+    }
+
     return ret;
 }
 
@@ -635,7 +650,9 @@ void cmi_process_cancel_awaiteds(struct cmb_process *pp)
         else if (pa->type == CMI_PROCESS_AWAITABLE_EVENT) {
             /* Waits for a specific event, remove ourselves from the event's list */
             cmb_assert_debug(pa->handle != UINT64_C(0));
-            (void)cmi_event_remove_waiter(pa->handle, pp);
+            if (cmb_event_is_scheduled(pa->handle)) {
+                (void)cmi_event_remove_waiter(pa->handle, pp);
+            }
         }
 
         /* Recycle the tag */
